@@ -452,6 +452,21 @@ Proof.
   destruct (negb (version_ok c)); [discriminate|]. destruct (parse_method a); discriminate.
 Qed.
 
+Theorem parse_response_never_crashes h : parse_response_headers h <> Crash.
+Proof.
+  unfold parse_response_headers, parse_headers.
+  destruct (split_total h CRLF 0 ltac:(discriminate)) as [ls Hs]. rewrite Hs.
+  destruct (split_sound _ _ _ _ Hs) as [Hne _]. destruct ls as [|first lines]; [congruence|].
+  destruct (split_total first [SP] 2 ltac:(discriminate)) as [ps Hp]. rewrite Hp.
+  destruct ps as [|a [|b [|c [|x rest]]]]; try discriminate.
+  assert (Hl : forall lines acc, parse_header_list lines acc <> Crash).
+  { induction lines0 as [|l ls IH]; intros acc; cbn [parse_header_list]; [discriminate|].
+    destruct (split_total l (B ":") 1 ltac:(discriminate)) as [q Hq]. rewrite Hq.
+    destruct q as [|k [|v [|y r]]]; try discriminate. apply IH. }
+  specialize (Hl lines []). destruct (parse_header_list lines []); try congruence; try discriminate.
+  destruct (Z.leb 100 (to_int b) && Z.leb (to_int b) 599)%bool; discriminate.
+Qed.
+
 (* ---- methods ---------------------------------------------------------------------------- *)
 
 Theorem methods_distinct m1 m2 :
